@@ -367,6 +367,10 @@ def run_cases(ctx, cases):
     out = common.run_driver_parallel(lines + spec_lines)
     mo, so = out[:len(lines)], out[len(lines):]
     for case, l, m, o in zip(keep, lines, mo, obs):
+        if case.via == "create_connection" and not o.startswith("ok "):
+            # the object is lost when create_connection raises: compare what remains observable
+            m = re.sub(r" status=\S+ sub=\S+", "", m)
+            o = re.sub(r" status=\S+ sub=\S+", "", o)
         if m != o:
             ctx.diverge("e2e:connect", {"case": case_json(case), "line": l[:400]}, m, o)
     ctx.traces_vs_impl += len(lines)
